@@ -63,7 +63,7 @@ theorem trace_snoc (C : Crypto) (a0 a a' : Abs) (es : List Entry) (e : Entry) (h
 
 theorem persist_append_pre (C : Crypto) (c c1 : Core) (d d1 : Disk) (hf : Header) (a0 a : Abs) (es : List Entry)
     (batch : List Bytes) (entry : Entry) (hp : Persist C c d hf a0 es a)
-    (hrep : Rep C c1 d1 (a.step (.append batch)).1) (hne : batch ≠ [])
+    (hrep : Rep C c1 d1 (a.step (.append batch)).1) (hne : batch ≠ []) (hw : a.writable = true)
     (htree : d1.tree = d.tree) (hbf : d1.bitfield = d.bitfield)
     (hbits : c1.bitfield = c.bitfield.setRange a.blocks.size batch.length true)
     (hentry : EntryStep C a entry (a.step (.append batch)).1)
@@ -75,7 +75,7 @@ theorem persist_append_pre (C : Crypto) (c c1 : Core) (d d1 : Disk) (hf : Header
     Persist C c1 d1 hf a0 (es ++ [entry]) (a.step (.append batch)).1 := by
   have hemp : batch.isEmpty = false := by cases batch with | nil => exact absurd rfl hne | cons _ _ => rfl
   have hsize : (a.step (.append batch)).1.blocks.size = a.blocks.size + batch.length := by
-    simp [Abs.step, hemp]
+    simp [Abs.step, hemp, hw]
   exact {
     trace := trace_snoc C a0 a _ es entry hp.trace hentry hrep.small
     small0 := hp.small0
@@ -262,6 +262,87 @@ theorem maybeFlush_persist (C : Crypto) (hC : HashWF C) (c : Core) (d : Disk) (h
     rw [applyAll_nil]
     exact { hp with }
 
+/-- a flush of either kind makes the stores hold the current state: `Persist` for the new ghosts -/
+theorem flushAll_persist (C : Crypto) (hC : HashWF C) (c : Core) (d : Disk) (hf : Header) (a : Abs) (es : List Entry) (ct : Bool)
+    (hrep : Rep C c d a) (hop : OpInv c.oplog d.oplog.toList hf es) (hfs : d.bitfield.size % Spec.pageBytes = 0)
+    (hdirty : ∀ i, c.bitfield.get i ≠ (Bitfield.ofFile d.bitfield).get i → i / Spec.pageBits ∈ c.bitfield.dirty)
+    (hshape : HdrShape c.header) (hlen : c.header.tree.length = a.blocks.size)
+    (hsig : c.header.tree.signature = [] ∨ c.header.tree.signature.length = 64) (hsec : c.header.secret = c.secret)
+    (hfork : U64 c.tree.fork) :
+    Persist C (c.flushAll ct).1 (d.applyAll (c.flushAll ct).2) c.header a [] a := by
+  simp only [Core.flushAll]
+  have hj1 := Journal.bitfieldFlush_store c.bitfield
+  have hj2 := Journal.treeFlush_store c.tree
+  have hj3 := Journal.oplogFlush_store c.oplog c.header ct
+  -- the tree store
+  obtain ⟨f1, _, _⟩ := nodesOK_flush C hC a.blocks c.tree (d.applyAll c.bitfield.flush.2) hrep.mapwf
+    (by rw [tree_of_applyAll _ _ (fun op hop => by rw [hj1 op hop]; decide)]; exact hrep.nodes)
+  have htree : (d.applyAll (c.bitfield.flush.2 ++ c.tree.flush.2 ++ (Oplog.flush c.oplog c.header ct).2)).tree
+      = ((d.applyAll c.bitfield.flush.2).applyAll c.tree.flush.2).tree := by
+    have := applyAll_get_only d c.bitfield.flush.2 c.tree.flush.2 (Oplog.flush c.oplog c.header ct).2 .tree
+      (fun op hop => by rw [hj1 op hop]; decide) (fun op hop => by rw [hj3 op hop]; decide)
+    simpa [Disk.get] using this
+  -- the bitfield store
+  have hbfile : (d.applyAll (c.bitfield.flush.2 ++ c.tree.flush.2 ++ (Oplog.flush c.oplog c.header ct).2)).bitfield
+      = writePages c.bitfield d.bitfield c.bitfield.dirty := by
+    have e1 : d.applyAll (c.bitfield.flush.2 ++ c.tree.flush.2 ++ (Oplog.flush c.oplog c.header ct).2)
+        = (d.applyAll c.bitfield.flush.2).applyAll (c.tree.flush.2 ++ (Oplog.flush c.oplog c.header ct).2) := by
+      rw [List.append_assoc, Journal.applyAll_append]
+    have e2 := Journal.applyAll_other (d.applyAll c.bitfield.flush.2)
+      (c.tree.flush.2 ++ (Oplog.flush c.oplog c.header ct).2) .bitfield
+      (fun op hop => by
+        rcases List.mem_append.mp hop with h | h
+        · rw [hj2 op h]; decide
+        · rw [hj3 op h]; decide)
+    simp only [Disk.get] at e2
+    rw [e1, e2]
+    exact applyAll_bitfield_writes c.bitfield d c.bitfield.dirty
+  obtain ⟨g1, g2⟩ := flush_bits c.bitfield d.bitfield hfs hdirty
+  have hbits : ∀ i, (Bitfield.ofFile (writePages c.bitfield d.bitfield c.bitfield.dirty)).get i = a.held i := by
+    intro i; rw [g1 i]; exact hrep.bits i
+  exact {
+    trace := Trace.nil a
+    small0 := hrep.small
+    fileNodes := by
+      rw [htree]
+      intro dd o hb
+      rw [← f1 dd o hb]
+      exact node?_congr _ _ _ _ rfl
+    stable := by rw [hbfile]; exact fun i _ => hbits i
+    kept := by rw [hbfile]; exact fun i hh => Or.inl (by rw [hbits]; exact hh)
+    low := by rw [hbfile]; exact fun i _ hh => by rw [hbits]; exact hh
+    below := by rw [hbfile]; exact fun i hi => by rw [hbits] at hi; exact hrep.heldLt i hi
+    fileSize := by rw [hbfile]; exact g2
+    held0Lt := hrep.heldLt
+    hfLen := hlen
+    hfSig := hsig
+    hfSecret := hsec
+    hfContig := ⟨fun i hi => by rw [← hrep.bits]; exact hrep.contig.1 i hi, by rw [← hrep.bits]; exact hrep.contig.2⟩
+    dirty := by
+      rw [hbfile]
+      intro i hne
+      exfalso; apply hne
+      rw [g1 i]; simp [Bitfield.flush, Bitfield.get]
+    hdrLen := hlen
+    hdrSig := hsig
+    hdrSecret := hsec
+    oplog := by
+      have hfile : (d.applyAll (c.bitfield.flush.2 ++ c.tree.flush.2 ++ (Oplog.flush c.oplog c.header ct).2)).oplog
+          = (Oplog.flush c.oplog c.header ct).2.foldl (fun g op => op.onFile g) d.oplog := by
+        have := applyAll_last_only d (c.bitfield.flush.2 ++ c.tree.flush.2) (Oplog.flush c.oplog c.header ct).2 .oplog
+          (fun op hop => by
+            rcases List.mem_append.mp hop with h | h
+            · rw [hj1 op h]; decide
+            · rw [hj2 op h]; decide) hj3
+        simpa [Disk.get] using this
+      rw [hfile]
+      cases ct with
+      | false => exact opinv_flush c.oplog d.oplog hf es c.header hop (headerOK_of_shape _ hshape)
+      | true => exact opinv_flush_traces c.oplog d.oplog hf es c.header hop (headerOK_of_shape _ hshape)
+    shape := hshape
+    forkU := by simp only [Tree.flush]; exact hfork
+    hfShape := hshape }
+
 /-! ### every call keeps `Persist` -/
 
 theorem persist_step (C : Crypto) (hC : HashWF C) (hS : SignWF C) (hTw : TreeWF C) (c : Core) (d : Disk) (hf : Header) (a0 a : Abs)
@@ -271,17 +352,46 @@ theorem persist_step (C : Crypto) (hC : HashWF C) (hS : SignWF C) (hTw : TreeWF 
   | get i => rw [get_refines C c d a hrep i]; exact ⟨hf, a0, es, hp⟩
   | has i => rw [has_refines C c d a hrep i]; exact ⟨hf, a0, es, hp⟩
   | info => rw [info_refines C c d a hrep]; exact ⟨hf, a0, es, hp⟩
+  | makeReadOnly =>
+    by_cases hw : a.writable = true
+    · have hsome : c.secret.isSome = true := by rw [hrep.writer]; exact hw
+      have hrep1 := rep_drop_secret C c d a hrep
+      have hstep : (stepC C (c, d) .makeReadOnly).1
+          = ((({ c with secret := none, header := { c.header with secret := none } } : Core).flushAll true).1,
+             d.applyAll (({ c with secret := none, header := { c.header with secret := none } } : Core).flushAll true).2) := by
+        simp only [stepC, Core.makeReadOnly, hsome, ite_true]
+      have habs : (a.step .makeReadOnly).1 = { a with writable := false } := by simp [Abs.step, hw]
+      rw [hstep, habs]
+      exact ⟨_, _, [], flushAll_persist C hC _ d hf _ es true hrep1 hp.oplog hp.fileSize hp.dirty (hdrShape_nosecret _ hp.shape)
+        hp.hdrLen hp.hdrSig rfl hp.forkU⟩
+    · have hwf : a.writable = false := by simpa using hw
+      have hnone : c.secret.isSome = false := by rw [hrep.writer]; exact hwf
+      have e1 : (stepC C (c, d) .makeReadOnly).1 = (c, d) := by simp [stepC, Core.makeReadOnly, hnone, Disk.applyAll]
+      have e2 : (a.step .makeReadOnly).1 = a := by simp [Abs.step, hwf]
+      rw [e1, e2]; exact ⟨hf, a0, es, hp⟩
   | append batch =>
+    by_cases hw : a.writable = true
+    swap
+    · have hwf : a.writable = false := by simpa using hw
+      have hsec : c.secret = none := by
+        have := hrep.writer; rw [hwf] at this
+        cases hs : c.secret with
+        | none => rfl
+        | some x => rw [hs] at this; simp at this
+      have e1 : (stepC C (c, d) (.append batch)).1 = (c, d) := by
+        simp [stepC, Core.appendBatch, hsec, Disk.applyAll]
+      have e2 : (a.step (.append batch)).1 = a := by simp [Abs.step, hwf]
+      rw [e1, e2]; exact ⟨hf, a0, es, hp⟩
     by_cases hemp : batch.isEmpty = true
-    · obtain ⟨seed, hseed⟩ : ∃ seed, c.secret = some seed := Option.isSome_iff_exists.mp hrep.writer
+    · obtain ⟨seed, hseed⟩ : ∃ seed, c.secret = some seed := Option.isSome_iff_exists.mp (by rw [hrep.writer]; exact hw)
       have e1 : (stepC C (c, d) (.append batch)).1 = (c, d) := by
         simp [stepC, Core.appendBatch, hseed, hemp, Disk.applyAll]
-      have e2 : (a.step (.append batch)).1 = a := by simp [Abs.step, hemp]
+      have e2 : (a.step (.append batch)).1 = a := by simp [Abs.step, hemp, hw]
       rw [e1, e2]; exact ⟨hf, a0, es, hp⟩
     · have hne : batch ≠ [] := by intro e; apply hemp; simp [e]
       obtain ⟨c1, j01, entry, hstep, hrep1, ht, hb, hbits, hentry, hlen, hsig, hsec, hsec2, hop, hdop, hfork,
           ⟨rh, sg, cc, hhdr, ⟨l, hrh⟩, hsg⟩, hentOK, _, _⟩ :=
-        append_shape C hC c d a hrep batch hne hv
+        append_shape C hC c d a hrep batch hne hv hw
       have hcc : cc = c1.header.contiguous := by rw [hhdr]
       have hshape : HdrShape c1.header := by
         rw [hhdr]
@@ -293,7 +403,7 @@ theorem persist_step (C : Crypto) (hC : HashWF C) (hS : SignWF C) (hTw : TreeWF 
           rw [← hcc] at this
           have hsz := hrep1.small.1
           unfold U64; omega
-      have hp1 := persist_append_pre C c c1 d (d.applyAll j01) hf a0 a es batch entry hp hrep1 hne ht hb hbits
+      have hp1 := persist_append_pre C c c1 d (d.applyAll j01) hf a0 a es batch entry hp hrep1 hne hw ht hb hbits
         (hentry hS) hlen (hsig hS) hsec hsec2 hop hdop (hentOK hS hl.1 hl.2 hp.forkU) hshape hfork
       obtain ⟨hf', a0', es', hp2⟩ := maybeFlush_persist C hC c1 (d.applyAll j01) hf a0 _ _ hrep1 hp1
       rw [hstep]
@@ -342,7 +452,7 @@ theorem reopen_persist (C : Crypto) (hC : HashWF C) (hTw : TreeWF C) (c : Core) 
   refine ⟨_, hopen, ?_, ?_⟩
   · exact {
       writer := by
-        show h'.secret.isSome = true
+        show h'.secret.isSome = a.writable
         rw [hs', hp.hfSecret]; exact hrep.writer
       tree := hinv.tree
       nodes := hinv.nodes
